@@ -192,9 +192,9 @@ const T1: &str = "<http://ex.org/b> <http://ex.org/p> \"y\"";
 // probes
 // ---------------------------------------------------------------------------
 
-pub const PROBES: [&str; 22] = [
+pub const PROBES: [&str; 23] = [
     "label-scan", "unlabelled-scan", "label-scan-L1", "label-scan-L2", "expand", "two-hop", "projection", "count", "filter-eq-1", "filter-eq-2", "filter-range", "cypher-label-scan",
-    "get_node", "node_exists", "get_edge", "neighbors-out", "neighbors-in", "get_nodes_batch", "sparql-all", "sparql-bound", "gremlin-label-scan", "graphql-label-scan",
+    "get_node", "node_exists", "get_edge", "neighbors-out", "neighbors-in", "get_nodes_batch", "sparql-all", "sparql-bound", "gremlin-label-scan", "graphql-label-scan", "two-hop-any",
 ];
 
 fn rows_str(r: Result<grafeo_engine::database::QueryResult, grafeo_common::utils::error::Error>) -> String {
@@ -235,7 +235,7 @@ fn expected(p: usize, g: &MGraph) -> String {
             v.sort();
             q(v)
         }
-        "two-hop" => {
+        "two-hop" | "two-hop-any" => {
             let mut v = vec![];
             for e1 in g.edges.values() {
                 for e2 in g.edges.values() {
@@ -310,6 +310,7 @@ fn run_probe(p: usize, s: &Session) -> String {
         "label-scan-L2" => rows_str(s.execute("MATCH (n:L2) RETURN n.name")),
         "expand" => rows_str(s.execute("MATCH (x)-[:K]->(y) RETURN x.name, y.name")),
         "two-hop" => rows_str(s.execute("MATCH (x)-[:K]->(y)-[:K]->(z) RETURN x.name, z.name")),
+        "two-hop-any" => rows_str(s.execute("MATCH (x)-[]->(y)-[]->(z) RETURN x.name, z.name")),
         "projection" => rows_str(s.execute("MATCH (n:G) RETURN n.name, n.v")),
         "count" => rows_str(s.execute("MATCH (n:G) RETURN COUNT(n)")),
         "filter-eq-1" => rows_str(s.execute("MATCH (n:G) WHERE n.v = 1 RETURN n.name")),
